@@ -92,12 +92,19 @@ Definition fmt_Z (zero : bool) (w : nat) (z : Z) : str :=
 
 Definition translator := (str * (N * N))%type.      (* name, tag *)
 
+Inductive extractor :=
+| XMinimal                                                  (* extract.minimal_extractor *)
+| XMeta (ignore_rules : list str) (translators : list translator).   (* extract.MetaExtractor(ignore_rules, translators) *)
+
 Record globals := {
   g_excl : list str;            (* dcmstack.default_key_excl_res   (a list: mutable) *)
   g_incl : list str;            (* dcmstack.default_key_incl_res   (a list: mutable) *)
   g_group_keys : list str;      (* dcmstack.default_group_keys     (a tuple) *)
   g_ignore_rules : list str;    (* extract.default_ignore_rules    (a tuple of functions, by name) *)
   g_translators : list translator;   (* extract.default_translators (a tuple) *)
+  g_default_extractor : extractor;   (* extract.default_extractor: a shared MetaExtractor OBJECT whose attributes
+                                        .ignore_rules / .translators can be assigned; used by every API call
+                                        that is not given an extractor *)
   g_version : str }.            (* info.__version__ *)
 
 (** the state right after import, regenerated from the sources *)
@@ -106,11 +113,19 @@ Definition initial_globals (version : str) : globals :=
      g_group_keys := default_group_keys;
      g_ignore_rules := default_ignore_rule_names;
      g_translators := map (fun t => (fst (fst (fst t)), snd (fst (fst t)))) default_translator_table;
+     g_default_extractor := XMeta default_ignore_rule_names
+                                  (map (fun t => (fst (fst (fst t)), snd (fst (fst t)))) default_translator_table);
      g_version := version |}.
 
 Definition set_lists (g : globals) (excl incl : list str) : globals :=
   {| g_excl := excl; g_incl := incl; g_group_keys := g_group_keys g;
-     g_ignore_rules := g_ignore_rules g; g_translators := g_translators g; g_version := g_version g |}.
+     g_ignore_rules := g_ignore_rules g; g_translators := g_translators g;
+     g_default_extractor := g_default_extractor g; g_version := g_version g |}.
+
+Definition set_default_extractor (g : globals) (x : extractor) : globals :=
+  {| g_excl := g_excl g; g_incl := g_incl g; g_group_keys := g_group_keys g;
+     g_ignore_rules := g_ignore_rules g; g_translators := g_translators g;
+     g_default_extractor := x; g_version := g_version g |}.
 
 (** [x = list(G)] (copied) or [x = G] (alias), then [x += extra]:
     returns (value of x, value of the module list G afterwards) *)
@@ -156,10 +171,6 @@ Definition default_args (src_dirs : list str) : args :=
      a_version := false |}.
 
 (** ------------------------------------------------------------------ the API calls *)
-
-Inductive extractor :=
-| XMinimal                                                  (* extract.minimal_extractor *)
-| XMeta (ignore_rules : list str) (translators : list translator).   (* extract.MetaExtractor(ignore_rules, translators) *)
 
 Record ordering := { o_key : str; o_abs : option (list str); o_abs_as_str : bool }.   (* DicomOrdering(key, abs, as_str) *)
 
@@ -442,6 +453,13 @@ Section Run.
     end.
 End Run.
 
+(** the extractor handed to parse_and_group is either a NEW MetaExtractor(ignore_rules, translators)
+    ([T_cli.extractor_fresh], what the source does) or the shared extract.default_extractor object
+    re-configured in place -- in which case the module state changes *)
+Definition after_extractor (g : globals) (x : extractor) : globals :=
+  if extractor_fresh then g
+  else match x with XMeta _ _ => set_default_extractor g x | XMinimal => g end.
+
 (** ------------------------------------------------------------------ dcmstack main *)
 
 Definition dcmstack_main (g : globals) (a : args) (i : inputs) : globals * outputs :=
@@ -452,9 +470,10 @@ Definition dcmstack_main (g : globals) (a : args) (i : inputs) : globals * outpu
     match build_extractor g a with
     | None => (g, OUsage)
     | Some x =>
-        let '(incl, gi') := init_extend incl_copied (g_incl g) (a_include_regex a) in
-        let '(excl, ge') := init_extend excl_copied (g_excl g) (a_exclude_regex a) in
-        let g' := set_lists g ge' gi' in
+        let g0 := after_extractor g x in
+        let '(incl, gi') := init_extend incl_copied (g_incl g0) (a_include_regex a) in
+        let '(excl, ge') := init_extend excl_copied (g_excl g0) (a_exclude_regex a) in
+        let g' := set_lists g0 ge' gi' in
         match build_order i (a_time_var a) (a_time_order a) with
         | Err e => (g', ORun [] (Some e))
         | Ok t_ord =>
